@@ -4,3 +4,7 @@ import SmtpV.Props.C12
 #print axioms SmtpV.Props.C12.C12_helo_none
 #print axioms SmtpV.Props.C12.C12_disabled_504_mail
 #print axioms SmtpV.Props.C12.C12_disabled_504_rcpt
+#print axioms SmtpV.Props.C12.caps_keywords
+#print axioms SmtpV.Props.C12.C12_starttls_honoured
+#print axioms SmtpV.Props.C12.C12_auth_honoured
+#print axioms SmtpV.Props.C12.C12_keyword_iff_enabled
